@@ -135,9 +135,11 @@ PROPS['C03'] = dict(coq=['Properties/C03.v'], **direct_prop(
 PROPS['C10'] = dict(coq=['Properties/C10.v'], **direct_prop(
     direct2.c10_run, direct2.c10_replay,
     rule='every str-like method x generated arguments (empty, overlapping, multi-character patterns, counts, negative/None bounds, non-ASCII) on AnsiString and AnsiStr against str on the base text, result and exception type; non-trivial = non-empty text'))
-PROPS['C13'] = dict(coq=['Properties/C13.v'], **direct_prop(
-    direct2.c13_run,
-    rule='twin runs: every shared public method (list computed from the classes at run time) and the shared operators on an AnsiString and an AnsiStr built from the same history, same arguments; results compared by text, per-character settings, 8 renderings, str payload'))
+PROPS['C13'] = dict(coq=['Properties/C13.v'], **_with_extra(hist_prop(
+    'C13', {'C13'}, W(**{'from': 7, 'new': 4, 'apply': 8, 'remove': 3, 'iadd': 3, 'assign': 1.5, 'clear': 0.5, 'simplify': 0.5, 'case': 1, 'strip': 1,
+                         'slice': 2, 'add': 2, 'pad': 1, 'replace': 1}), 700, 20000, hg={'odd': 'mix'},
+    rule='histories over both classes with conversions AnsiStr(x)/AnsiString(x) weighted up, sources mutated in place afterwards: after every step the str payload of every AnsiStr object must equal its own rendering and no AnsiStr object may change; plus twin runs: every shared public method (list computed from the classes at run time) and the shared operators on an AnsiString and an AnsiStr built from the same history, same arguments, results compared by text, per-character settings, 8 renderings, str payload'),
+    direct2.c13_run))
 PROPS['C14'] = dict(coq=['Properties/C14.v'], **direct_prop(
     direct2.c14_run, direct2.c14_replay,
     rule='all AnsiFormat names x 6 spellings, all codes 0..255 as int/str/list/verbatim, colour groups flat/nested/joined, rgb/color256 helpers and their string forms with boundary values, random mixtures; model scrubber compared on the same forms'))
